@@ -501,6 +501,17 @@ def classify(v, case):
         if key_bidi - pair_bidi:
             if m == "advance_value" and det["got_xadv"] == 0 and {"L", "R"} <= key_bidi:
                 return "bidi_decided_per_class_pair"
+            if m == "advance_value" and {"L", "R"} <= key_bidi and det.get("level") is not None \
+                    and det["level"] < 3 and len(det["contrib"]) <= 1:
+                # the dropped rule was an exception (glyph x class, class x glyph): the value of
+                # a more general rule that is kept shines through
+                rk = RKern(spec["kerning"], spec["groups"], exported)
+                ga, gb = rk.g1.get(a), rk.g2.get(b)
+                keys = [(a, b), (a, gb), (ga, b), (ga, gb)]
+                general = [quantize(rk.k[k], case["quantization"]) for k in keys[det["level"] + 1:]
+                           if None not in k and k in rk.k]
+                if det["got_xadv"] in general:
+                    return "dropped_mixed_direction_exception_exposes_class_value"
             if m == "placement_rtl" and det["got_xpla"] == 0 and "L" in key_bidi:
                 return "bidi_decided_per_class_pair"
     return None
